@@ -787,6 +787,7 @@ type c20Result struct {
 	Outcome string
 	NonTriv bool
 	Steps   int64 // export / convert executions of the library in this case
+	Chain   bool  // the whole chain doc -> md1 -> doc2 -> md2 ran on the implementation and was judged
 }
 
 var c20Conv *markdown.Converter
@@ -1164,6 +1165,7 @@ func c20RunCase(els []c20Elem, o c20Opts) c20Result {
 	}
 	res.MD2 = md2
 	res.Steps++
+	res.Chain = true
 
 	rtOK, mapping := c20CompareBlocks(els, orig, got, toks, o, md1, orderBroken, add)
 	if rtOK && md1 != md2 {
@@ -1883,7 +1885,7 @@ func c20Work(c *shard.Ctx) {
 		}
 		c.P.Outcome(res.Outcome)
 		c.P.Transitions += res.Steps
-		if res.Steps == 4 {
+		if res.Chain {
 			c.P.Traces++ // the whole chain doc -> md1 -> doc2 -> md2 ran on the implementation and was judged
 		}
 		if samples < 1 && i%97 == 0 && len(els) > 1 {
